@@ -156,6 +156,22 @@ def build(shape, tok):
         hdr.append(b"MIME-Version: 1.0")
         hdr.append(b"Content-Type: multipart/mixed; boundary=XYZ")
         body = [b"no boundary here " + t.encode(), b".", b".hidden " + t.encode(), b"last"]
+    elif shape == "deep-nest":
+        # multiparts nested deeper than Python likes to recurse
+        depth = 300
+        hdr.append(b"MIME-Version: 1.0")
+        hdr.append(b"Content-Type: multipart/mixed; boundary=b0")
+        body = []
+        for i in range(depth):
+            body.append(b"--b%d" % i)
+            body.append(b"Content-Type: multipart/mixed; boundary=b%d" % (i + 1))
+            body.append(b"")
+        body.append(b"--b%d" % depth)
+        body.append(b"Content-Type: text/plain")
+        body.append(b"")
+        body.append(b"innermost " + t.encode())
+        for i in range(depth, -1, -1):
+            body.append(b"--b%d--" % i)
     elif shape == "huge-line":
         # one body line longer than asyncio's default stream limit (64 KiB)
         body = [b"before " + t.encode(), b"H" * 70000 + t.encode(), b".after " + t.encode()]
